@@ -46,7 +46,8 @@ def mk(loop):
     api = ZBOSS(cfg)
     proto = U.ZbossNcpProtocol(cfg[conf.CONF_DEVICE], api)
     w = Wire(); proto.connection_made(w)
-    api._uart = proto
+    import access as X
+    X.aset(api, "uart", proto)
     return api, proto, w
 
 def rsp_bytes(cmd, seq=0):
